@@ -15,14 +15,15 @@ import (
 )
 
 type checkResult struct {
-	prop      string
-	tier      string
-	funcs     []*FuncResult
-	obligs    []*Obligation
-	lemmaObs  []*Obligation
-	unmatched []string
-	findings  []Finding
-	wall      float64
+	prop          string
+	tier          string
+	funcs         []*FuncResult
+	obligs        []*Obligation
+	lemmaObs      []*Obligation
+	unmatched     []string
+	staticAssumed []string
+	findings      []Finding
+	wall          float64
 }
 
 func loadFindings(verif string) []Finding {
@@ -138,7 +139,8 @@ func cmdCheck(repo, verif string, args []string) int {
 		}
 	}
 	// finite-table obligations decided by evaluation
-	statics := staticObligations(p, prop)
+	statics, staticAssumed := staticObligations(p, prop, verif)
+	cr.staticAssumed = staticAssumed
 	// lemma proofs
 	cr.lemmaObs = lemmaObligations(p, verif)
 	outDir := filepath.Join(verif, "out", prop)
@@ -383,6 +385,7 @@ func writeEvidence(p *Program, cr *checkResult, verif string, seed, violations i
 	for _, n := range notes {
 		assumptions = append(assumptions, n)
 	}
+	assumptions = append(assumptions, cr.staticAssumed...)
 	for _, u := range cr.unmatched {
 		assumptions = append(assumptions, "UNMATCHED-CONTRACT (no obligations generated): "+u)
 	}
@@ -443,12 +446,27 @@ func relFiles(fs []string, root string) []string {
 
 // notCovered: clauses of each property statement that no contract in reach decides (DESIGN.md section 5).
 var notCovered = map[string][]string{
+	"C01": {
+		"that Check() applies the validators to every example value of the schema and of every registered type (checker / loader pipeline)",
+		"regex rule and built-in string formats (email, uri, uuid, date, datetime): external libraries",
+		"or-alternatives, type references, nullable, allOf",
+	},
+	"C17": {
+		"language of the enum rule scanner (bracketed comma-separated list of scalars, annotations, exponent numbers refused)",
+		"Values() order and the AST of the rule; `enum: @name` vs the inline list through the loader",
+	},
 	"C02": {
 		"schema scanner, enum scanner, loader, compiler, checker, validators and OpenAPI conversion are not under contract: their panics are not excluded",
 		"stack depth and memory exhaustion (the model has unbounded memory and recursion depth)",
 		"known finding: Number scanner exponent magnitude above 2^40 (make with a huge length)",
 	},
 	"C04": {"only the integer parsers and the constraint constructors that use them; float parsing (strconv) is external"},
+	"C09": {
+		"address-derived names of unnamed types (`#%p`, ISchema.AddUnnamedType) reaching an error message (SetIncorrectUserType)",
+		"independence from the registration order of AddType / AddRule as a whole-history property (no per-function contract states it)",
+		"the loader invariant 'at most one type-derived constraint per node' that three reviewed map-range entries rely on",
+		"pointer-valued data in results other than through errs.errorFormat",
+	},
 	"C10": {
 		"history independence of whole results (same answer after any sequence of other inputs): a whole-history property, not a per-call contract",
 		"immutability of returned ASTs, type lists and errors; the shared virtual 'any' node",
